@@ -59,6 +59,7 @@ def units(tier):
     for t in TYPES:
         # a far index (array growth by many slots at once) next to index 0
         out.append({'kind': 'typed', 'type': t, 'default': t == 'uint', 'indices': [0, 9] if tier == 'quick' else [0, 9, 17], 'nvalues': 2})
+        out.append({'kind': 'typed', 'type': t, 'default': False, 'indices': [130, 17] if tier == 'quick' else [130, 17, 300], 'nvalues': 2})
     out.append({'kind': 'mapper', 'indices': [0, 3], 'depth': 8 if tier == 'quick' else 11})
     out.append({'kind': 'mapper', 'indices': [1, 0], 'depth': 7 if tier == 'quick' else 10})
     out.append({'kind': 'manager', 'depth': 6 if tier == 'quick' else 8})
@@ -415,8 +416,8 @@ def run_case(case, acc):
 
 def guards(acc, tier):
     msgs = []
-    if acc.counters.get('fixpoints_reached', 0) + acc.counters.get('bfs_capped_at_400000_states', 0) < 15:
-        msgs.append('fewer than 15 typed-store fixpoints reached')
+    if acc.counters.get('fixpoints_reached', 0) + acc.counters.get('bfs_capped_at_400000_states', 0) < 20:
+        msgs.append('fewer than 20 typed-store fixpoints reached')
     if len(acc.states) < 500:
         msgs.append('fewer than 500 distinct states')
     return msgs
